@@ -55,16 +55,17 @@ Proof. destruct e; discriminate. Qed.
 Section Srv.
 Variable mfa : str -> option str.
 Variable cfg : scfg.
+Variable srcok : str -> nat -> bool.
 Variable base : list str.
 
-Lemma st_get_wf st mb id : ans_wf (st_get cfg st mb id) = true.
+Lemma st_get_wf st mb id : ans_wf (st_get cfg srcok st mb id) = true.
 Proof. unfold st_get. destruct (exec_spec cfg st (Get mb (handle_of_id id))) as [[s o] e]. apply ans_of_res_wf. Qed.
 
 Lemma run_handler_no_panic st h name id num body :
-  fst (snd (run_handler mfa cfg st h name id num body)) <> SPanic.
+  fst (snd (run_handler mfa cfg srcok st h name id num body)) <> SPanic.
 Proof.
   unfold run_handler. destruct (mfa name) as [mb|]; [|discriminate].
-  assert (L : forall n r, In r (lookup_resps mb id n (st_get cfg st mb id)) -> fst r <> SPanic)
+  assert (L : forall n r, In r (lookup_resps mb id n (st_get cfg srcok st mb id)) -> fst r <> SPanic)
     by (intros n r; apply lookup_no_panic, st_get_wf).
   destruct h.
   - destruct (exec_spec cfg st (Lst mb)) as [[s o] e]. discriminate.
@@ -81,10 +82,10 @@ Proof.
     apply (L n). unfold lookup_resps; cbn [In]; auto 8.
 Qed.
 
-Lemma dispatch_no_panic st m body r : fst (snd (dispatch mfa cfg st m body r)) <> SPanic.
+Lemma dispatch_no_panic st m body r : fst (snd (dispatch mfa cfg srcok st m body r)) <> SPanic.
 Proof. destruct r; cbn [dispatch]; try discriminate. apply run_handler_no_panic. Qed.
 
-Lemma serve_no_panic st rq : fst (snd (serve mfa cfg base st rq)) <> SPanic.
+Lemma serve_no_panic st rq : fst (snd (serve mfa cfg srcok base st rq)) <> SPanic.
 Proof.
   unfold serve. destruct (unescape (rq_path rq)) as [p|]; [|discriminate].
   destruct (negb (str_eqb (clean_path p) p)); [discriminate|].
@@ -93,10 +94,10 @@ Proof.
 Qed.
 
 Lemma client_send_no_panic cbase st m uri body :
-  fst (snd (client_send mfa cfg base cbase st m uri body)) <> SPanic.
+  fst (snd (client_send mfa cfg srcok base cbase st m uri body)) <> SPanic.
 Proof.
   unfold client_send.
-  destruct (serve mfa cfg base st _) as [st1 [s p]] eqn:E.
+  destruct (serve mfa cfg srcok base st _) as [st1 [s p]] eqn:E.
   assert (s <> SPanic) by (pose proof (serve_no_panic st {| rq_meth := m; rq_path := client_wire cbase uri; rq_body := body |}) as H; rewrite E in H; exact H).
   destruct s; try (cbn [snd fst]; assumption); try discriminate.
   destruct p; try discriminate. apply serve_no_panic.
@@ -107,17 +108,18 @@ Qed.
 Fixpoint hrun (cbase : str) (st : spec_store) (ops : list hop) : list hout :=
   match ops with
   | [] => []
-  | o :: r => let '(st', out) := hstep mfa cfg base cbase st o in out :: hrun cbase st' r
+  | o :: r => let '(st', out) := hstep mfa cfg srcok base cbase st o in out :: hrun cbase st' r
   end.
 
 Lemma hrun_no_panic cbase ops : forall st p, ~ In (OResp (SPanic, p)) (hrun cbase st ops).
 Proof.
   induction ops as [|o r IH]; intros st p; cbn [hrun In]; [tauto|].
-  destruct (hstep mfa cfg base cbase st o) as [st' out] eqn:E. cbn [In]. intros [H|H]; [|eapply IH; eauto].
+  destruct (hstep mfa cfg srcok base cbase st o) as [st' out] eqn:E. cbn [In]. intros [H|H]; [|eapply IH; eauto].
   subst out. destruct o; cbn [hstep] in E.
   - destruct (exec_spec cfg st (Add mb date tag size)) as [[s ob] ev]. discriminate.
-  - pose proof (serve_no_panic st rq) as N. destruct (serve mfa cfg base st rq) as [s r0]. inversion E; subst. apply N. reflexivity.
-  - destruct (client_do mfa cfg base cbase st op). discriminate.
+  - pose proof (serve_no_panic st rq) as N. destruct (serve mfa cfg srcok base st rq) as [s r0]. inversion E; subst. apply N. reflexivity.
+  - destruct (client_do mfa cfg srcok base cbase st op). discriminate.
+  - pose proof (serve_no_panic st rq) as N. destruct (serve mfa cfg srcok base st rq) as [s r0]. inversion E; subst. apply N. reflexivity.
 Qed.
 
 (* ------------------------------------------------------------------ missing ⇒ 404 *)
@@ -139,7 +141,7 @@ Proof.
   unfold spec_get. destruct (handle_of_id id); reflexivity.
 Qed.
 
-Lemma st_get_spec st mb id : st_get cfg st mb id = ans_of_res (spec_get cfg st mb id).
+Lemma st_get_spec st mb id : st_get cfg srcok st mb id = with_src srcok mb (ans_of_res (spec_get cfg st mb id)).
 Proof. unfold st_get. rewrite spec_get_exec. reflexivity. Qed.
 
 Lemma res_of_find_notexist o : res_of_find o = NotExist -> o = None.
@@ -154,12 +156,12 @@ Qed.
 
 Lemma missing_is_404_handler st h name id num body mb :
   mfa name = Some mb -> spec_get cfg st mb id = NotExist -> addresses_message h body num = true ->
-  run_handler mfa cfg st h name id num body = (st, (S404, PNone)).
+  run_handler mfa cfg srcok st h name id num body = (st, (S404, PNone)).
 Proof.
   intros M G A. unfold run_handler. rewrite M.
   pose proof (missing_lit st mb id G) as F.
   destruct h; cbn [addresses_message] in A; try discriminate;
-    rewrite ?st_get_spec, ?G; cbn [ans_of_res mgr_get ga_err ga_msg ga_src h_show h_src h_uimsg h_uihtml h_uisrc]; try reflexivity.
+    rewrite ?st_get_spec, ?G; cbn [with_src ans_of_res mgr_get ga_err ga_msg ga_src h_show h_src h_uimsg h_uihtml h_uisrc]; try reflexivity.
   - destruct body; try discriminate. cbn [exec_spec]. rewrite F. reflexivity.
   - cbn [exec_spec]. rewrite F. reflexivity.
   - destruct (parse_uint32 num); [|discriminate]. reflexivity.
@@ -174,25 +176,46 @@ Lemma seen_cases st mb h :
 Proof. cbn [exec_spec]. destruct (find_h mb h (live st)) as [e|]; [left; exists e; auto | right; auto]. Qed.
 
 Lemma handler_meets_spec st h name id num body out :
-  spec_handler mfa cfg st h name id num body = Some out ->
-  run_handler mfa cfg st h name id num body = out.
+  spec_handler mfa cfg srcok st h name id num body = Some out ->
+  run_handler mfa cfg srcok st h name id num body = out.
 Proof.
   unfold spec_handler, run_handler. destruct (mfa name) as [mb|]; [|discriminate].
   rewrite ?st_get_spec.
   destruct h.
   - destruct (exec_spec cfg st (Lst mb)) as [[s o] e]. intros H; inversion H; reflexivity.
   - cbn [exec_spec unit_res err_of_res h_purge]. intros H; inversion H; reflexivity.
-  - destruct (spec_get cfg st mb id); cbn [ans_of_res mgr_get ga_err ga_msg ga_src h_show]; intros H; inversion H; reflexivity.
+  - destruct (spec_get cfg st mb id) as [v| |]; cbn [with_src ans_of_res mgr_get ga_err ga_msg ga_src h_show]; try destruct (srcok mb (fst v)); intros H; inversion H; reflexivity.
   - destruct body; try discriminate. cbn [exec_spec].
     destruct (find_h mb (lit_handle id) (live st)); cbn [unit_res err_of_res h_unit]; intros H; inversion H; reflexivity.
   - cbn [exec_spec].
     destruct (find_h mb (lit_handle id) (live st)); cbn [unit_res err_of_res h_unit]; intros H; inversion H; reflexivity.
-  - destruct (spec_get cfg st mb id); cbn [ans_of_res mgr_get ga_err ga_msg ga_src h_src]; intros H; inversion H; reflexivity.
-  - destruct (spec_get cfg st mb id); cbn [ans_of_res mgr_get ga_err ga_msg ga_src h_uimsg]; intros H; inversion H; reflexivity.
-  - destruct (spec_get cfg st mb id); cbn [ans_of_res mgr_get ga_err ga_msg ga_src h_uihtml]; intros H; inversion H; reflexivity.
-  - destruct (spec_get cfg st mb id); cbn [ans_of_res mgr_get ga_err ga_msg ga_src h_uisrc]; intros H; inversion H; reflexivity.
+  - destruct (spec_get cfg st mb id) as [v| |]; cbn [with_src ans_of_res mgr_get ga_err ga_msg ga_src h_src]; try destruct (srcok mb (fst v)); intros H; inversion H; reflexivity.
+  - destruct (spec_get cfg st mb id) as [v| |]; cbn [with_src ans_of_res mgr_get ga_err ga_msg ga_src h_uimsg]; try destruct (srcok mb (fst v)); intros H; inversion H; reflexivity.
+  - destruct (spec_get cfg st mb id) as [v| |]; cbn [with_src ans_of_res mgr_get ga_err ga_msg ga_src h_uihtml]; try destruct (srcok mb (fst v)); intros H; inversion H; reflexivity.
+  - destruct (spec_get cfg st mb id) as [v| |]; cbn [with_src ans_of_res mgr_get ga_err ga_msg ga_src h_uisrc]; try destruct (srcok mb (fst v)); intros H; inversion H; reflexivity.
   - destruct (parse_uint32 num) as [n|]; [|discriminate].
-    destruct (spec_get cfg st mb id); cbn [ans_of_res mgr_get ga_err ga_msg ga_src h_uiatt]; intros H; inversion H; reflexivity.
+    destruct (spec_get cfg st mb id) as [v| |]; cbn [with_src ans_of_res mgr_get ga_err ga_msg ga_src h_uiatt]; try destruct (srcok mb (fst v)); intros H; inversion H; reflexivity.
+Qed.
+
+(** A message that is in the index but whose content can no longer be opened (removed or lost
+    between look-up and open): every handler that needs the content answers 500 — a well-formed
+    answer, not a panic — and leaves the store alone; listing, mark-seen, delete and purge do not
+    need the content. *)
+Definition needs_content (h : hid) (num : str) : bool :=
+  match h with
+  | HShow | HSrc | UMsg | UHtml | USrc => true
+  | UAtt => match parse_uint32 num with Some _ => true | None => false end
+  | _ => false
+  end.
+
+Lemma content_gone_is_500 st h name id num body mb v :
+  mfa name = Some mb -> spec_get cfg st mb id = Ok v -> srcok mb (fst v) = false -> needs_content h num = true ->
+  run_handler mfa cfg srcok st h name id num body = (st, (S500, PNone)).
+Proof.
+  intros M G K A. unfold run_handler. rewrite M.
+  destruct h; cbn [needs_content] in A; try discriminate;
+    rewrite ?st_get_spec, ?G; cbn [with_src ans_of_res mgr_get ga_err ga_msg ga_src]; rewrite ?K; try reflexivity.
+  destruct (parse_uint32 num); [|discriminate]. reflexivity.
 Qed.
 
 (** What the specification of the six operations amounts to on the abstract store (so that
@@ -200,12 +223,12 @@ Qed.
     own answer). *)
 Lemma spec_list_is_box st name mb :
   mfa name = Some mb ->
-  spec_handler mfa cfg st HList name [] [] BBad = Some (st, (S200, PList mb (map view_of (box mb (live st))))).
+  spec_handler mfa cfg srcok st HList name [] [] BBad = Some (st, (S200, PList mb (map view_of (box mb (live st))))).
 Proof. intros M. unfold spec_handler. rewrite M. reflexivity. Qed.
 
 Lemma spec_purge_empties st name mb :
   mfa name = Some mb ->
-  exists st', spec_handler mfa cfg st HPurge name [] [] BBad = Some (st', (S200, POk)) /\
+  exists st', spec_handler mfa cfg srcok st HPurge name [] [] BBad = Some (st', (S200, POk)) /\
               box mb (live st') = [] /\ forall mb', str_eqb mb mb' = false -> box mb' (live st') = box mb' (live st).
 Proof.
   intros M. unfold spec_handler. rewrite M. cbn [exec_spec]. eexists. split; [reflexivity|]. cbn [live]. split.
